@@ -164,9 +164,13 @@ def ports_part(ctx, which):
     if which == "C05":
         cl = make_classify({LOST, PHANTOM, TWICE, COUNT})
         D(ctx, "eventports", ["gen", "--exhaustive", 2 if quick else 3], cl, label="eventports.exhaustive", shrink=False, line_oracle=panic_oracle)
-        D(ctx, "eventports", ["gen", "--seed", ctx.seed, "--cases", 1200 if quick else 8000, "--len", 60 if quick else 80], cl,
+        # the single-listener API (`keys` = for_each_listener, `notifyone` = notify_single_listener… with a remembered key, also a stale one)
+        D(ctx, "eventports", ["gen", "--exhaustive", 2 if quick else 3, "single"], cl, label="eventports.exhaustive-single", shrink=False, line_oracle=panic_oracle)
+        D(ctx, "eventports", ["gen", "--seed", ctx.seed + 3, "--cases", 700 if quick else 5000, "--len", 60 if quick else 80, "single"], cl,
+          label="eventports.single", line_oracle=panic_oracle)
+        D(ctx, "eventports", ["gen", "--seed", ctx.seed, "--cases", 700 if quick else 8000, "--len", 60 if quick else 80], cl,
           label="eventports.random", line_oracle=panic_oracle)
-        D(ctx, "eventports", ["gen", "--seed", ctx.seed + 5, "--cases", 90 if quick else 1500, "--len", 40 if quick else 60, "ipc"], cl,
+        D(ctx, "eventports", ["gen", "--seed", ctx.seed + 5, "--cases", 90 if quick else 1500, "--len", 40 if quick else 60, "single", "ipc"], cl,
           label="eventports.ipc", line_oracle=panic_oracle)
         if not quick:
             D(ctx, "eventports", ["gen", "--exhaustive", 2, "ipc"], cl, label="eventports.exhaustive-ipc", shrink=False, line_oracle=panic_oracle)
@@ -196,7 +200,9 @@ def ports_part(ctx, which):
 
 RULE = ("eventports: real Notifier / Listener ports of an event service driven through the public API, one call per line, on 1..4 nodes sharing the service: "
         "open the service from a further node, create/drop notifier (default event id) and listener through any node's service handle, notify (default id), "
-        "notify_with_custom_event_id (ids 0..event_id_max+1), try_wait / timed_wait (ids only), dynamic_config port counts, drop node handle / service handle in any order, "
+        "notify_with_custom_event_id (ids 0..event_id_max+1), the single-listener API (generator word `single`: for_each_listener collecting the ListenerKeys, remembered by listener; "
+        "notify_single_listener / notify_single_listener_with_custom_event_id with a remembered key, also after the listener was dropped and its registry slot was re-used by another "
+        "listener), try_wait / timed_wait (ids only), dynamic_config port counts, drop node handle / service handle in any order, "
         "node death (node, service handle and ports abandoned as in the conformance tests) and try_cleanup_dead_nodes by a surviving node, `ls` of the case's files by kind (ipc); "
         "services with max notifiers / listeners / nodes 0..3 (0 is adjusted to 1), event_id_max_value 0..4, notifier created / dropped / dead events unset or 0..max+1 "
         "(also outside the bound), no deadline / a deadline never missed / a deadline always missed; local and ipc variants. "
@@ -204,7 +210,7 @@ RULE = ("eventports: real Notifier / Listener ports of an event service driven t
         "prefix for 3 configurations; shutdown: every permutation of the drop order of node handle, service handle, 2 notifiers, 2 listeners (720) for 2 configurations with the "
         "survivors exercised, plus random object graphs on 1..2 nodes with random drop orders. Every result (notify counts, reported id sets, error kinds, port counts, cleanup "
         "counts, files by kind) compared with the L1 model; harness oracles independent of the model: a wait reports no id that no notify / lifecycle emission produced since the "
-        "listener's last wait, every id whose notify returned ok (or MissedDeadline) while the listener existed is reported by its next wait, no id twice in one wait, the notify "
+        "listener's last wait (an id sent with ANOTHER listener's key counts as not sent to it), every id whose notify / single-listener notify returned ok (or MissedDeadline) while the listener existed is reported by its next wait, no id twice in one wait, the notify "
         "count lies between the live listeners and live + dead-not-yet-cleaned listeners; C08: limits judged on the implementation's answers alone (refused iff the limit is reached, "
         "documented error kind, port counts); C17: no panic, nothing left after the last drop")
 
@@ -213,8 +219,8 @@ ASSUMPTIONS = [
     "step-level model Iox2/Model/EventProto.lean (C05 proper), a listener's concept is its set of pending ids here (counts are not compared)",
     "dead nodes are cleaned up by the explicit try_cleanup_dead_nodes call only (cleanup_dead_nodes_on_creation / _on_destruction / _on_open switched off in the harness config)",
     "the node registry of the service is modelled by its occupancy (how many nodes hold a service state), not by slots: no observable depends on the slot",
-    "blocking_wait, Notifier::notify_single_listener / for_each_listener, port names and attributes are not driven; timed_wait is driven with a non-zero timeout only "
+    "blocking_wait, Monofier::notify (same code path as notify_single_listener), port names and attributes are not driven; timed_wait is driven with a non-zero timeout only "
     "(a zero timeout never returns: SO_RCVTIMEO 0, reported as a side finding)",
     "deadline: only the two sequentially observable extremes (never missed: 100000 s; always missed: 1 ns); the elapsed-time arithmetic itself is not modelled",
-    "a notifier's connection to a dead listener whose trigger fails is dropped by the code (Disconnected) and kept by the model: not observable, such a listener is never counted either way",
+    "a notifier's connection to a dead listener whose trigger fails is dropped (Disconnected -> remove): modelled (`prune`), observable through for_each_listener / InvalidListenerKey",
 ]
